@@ -759,6 +759,12 @@ def roundIntNeg (i : Int) (k : Nat) : Int :=
   let q := F64.rneDiv i.natAbs p
   if i < 0 then -((q * p : Nat) : Int) else ((q * p : Nat) : Int)
 
+/-- the end of `round(x, -k)`: `OverflowError` when the rounded value is not finite -/
+def roundFloatNegOf (z : F64) : R Val :=
+  match z with
+  | .inf _ => .error .overflowError
+  | r => .ok (.float r)
+
 /-- `round(x, -k)` for a float: the nearest multiple of `10^k` (ties to even on the exact value),
 then the nearest double; `OverflowError` when that is not finite -/
 def roundFloatNeg (x : F64) (k : Nat) : R Val :=
@@ -766,9 +772,9 @@ def roundFloatNeg (x : F64) (k : Nat) : R Val :=
   | .finite neg m e =>
     if k > 308 then .ok (.float (.finite neg 0 0)) else
     let q := F64.rneDiv (m * 2 ^ e) (F64.one * 10 ^ k)
-    (match F64.ofScaled neg (q * 10 ^ k * F64.one) 1 with
-     | .inf _ => .error .overflowError
-     | r => .ok (.float r))
+    -- (the final `inf → OverflowError` test is a helper over the ABSTRACT rounded value, so that proofs can case-split
+    -- on it without normalising `… * 10^k * 2^1074`; same behaviour)
+    roundFloatNegOf (F64.ofScaled neg (q * 10 ^ k * F64.one) 1)
   | _ => .ok (.float x)
 
 def floatToInt (x : F64) (r : Option Int) : R Val :=
